@@ -17,6 +17,8 @@
 #include <iostream>
 #include <stdexcept>
 #include <new>
+#include <thread>
+#include <sys/wait.h>
 #include <locale>
 #include <clocale>
 #include <functional>
@@ -205,9 +207,46 @@ inline void install_foreign_locales()
     { std::wostringstream o; o << 1 << L' ' << 1.5; }
 }
 
+// ---- shutdown probe: `<harness> --shutdown-probe` registers an exit handler and a thread-local object BEFORE the
+// library is used for the first time, uses the library (a harness-specific probe function returning a digest of its
+// results), returns from main, and uses it again from the exit handler and from the thread-local object's destructor —
+// i.e. after every function-local static and thread_local object the library created has been destroyed.  The results
+// must be the same and no storage may have gone away underneath (ASan).  The case `shutdown` runs that in a fresh process.
+typedef std::string (*ProbeFn)();
+static ProbeFn g_probe = nullptr;
+static std::string g_probe_first;
+inline void probe_at_exit()
+{
+    std::string again = g_probe();
+    if (again != g_probe_first) { const char *m = "shutdown probe: results differ during shutdown\n"; (void)!write(2, m, strlen(m)); _exit(97); }
+}
+struct ProbeAtThreadExit { ~ProbeAtThreadExit() { std::string again = g_probe(); if (again != g_probe_first) _exit(98); } };
+inline int run_shutdown_probe()
+{
+    if (!g_probe) return 0;
+    atexit(probe_at_exit);                        // registered before the library's first use: runs after its statics are gone
+    g_probe_first = g_probe();
+    std::thread t([] { thread_local ProbeAtThreadExit guard; (void)&guard; std::string r = g_probe(); if (r != g_probe_first) _exit(96); });
+    t.join();
+    return 0;
+}
+inline std::string run_shutdown_case()
+{
+    char exe[4096];
+    ssize_t n = readlink("/proc/self/exe", exe, sizeof exe - 1);
+    if (n <= 0) return "shutdown rc=-1";
+    exe[n] = 0;
+    std::string cmd = std::string(exe) + " --shutdown-probe >/dev/null 2>&1";
+    int rc = system(cmd.c_str());
+    std::ostringstream o;
+    o << "shutdown rc=" << (WIFEXITED(rc) ? WEXITSTATUS(rc) : 1000 + WTERMSIG(rc));
+    return o.str();
+}
+
 // main loop: argv[1] = case file, argv[2] = index of first line to run (default 0)
 inline int run_main(int argc, char **argv, const Dispatch &dispatch)
 {
+    if (argc > 1 && std::string(argv[1]) == "--shutdown-probe") return run_shutdown_probe();
     if (argc < 2) { fprintf(stderr, "usage: %s cases [from] [timeout]\n", argv[0]); return 2; }
     size_t from = argc > 2 ? strtoul(argv[2], nullptr, 10) : 0;
     if (argc > 3) g_case_timeout = atoi(argv[3]);
@@ -236,7 +275,7 @@ inline int run_main(int argc, char **argv, const Dispatch &dispatch)
             if (dcy != a) { try { (void)dispatch(tok[1], dcy); } catch (...) { } }
         }
         try {
-            out = "OK " + dispatch(tok[1], a);
+            out = "OK " + (tok[1] == "shutdown" ? run_shutdown_case() : dispatch(tok[1], a));
         } catch (const ST::unicode_error &) {
             out = "THROW unicode_error";
         } catch (const ST::codec_error &) {
